@@ -161,6 +161,22 @@ def blocks(n: Names, bodies: list[tuple], bodies2: list[tuple] | None = None) ->
     return out
 
 
+@lru_cache(maxsize=8)
+def mixed_blank_nests(seed: int = 0, small: bool = False) -> tuple[tuple, ...]:
+    """Two-level nests in which the inner block mixes blank and non-blank branches (body / else / elsif / when) and the
+    outer block has nothing else to say: whether the outer block is 'blank' depends on every branch of the inner one."""
+    n = Names(seed)
+    blank_bodies: list[tuple] = [(("text", " \n"),), ()]
+    loud_bodies: list[tuple] = [(("out", V(n.g)),), (("text", "L"),)]
+    inner = blocks(n, loud_bodies[:1] + blank_bodies[:1], blank_bodies + loud_bodies[1:])
+    if small:
+        inner = [st for st in inner if st[0] in ("for", "if", "case", "unless") and (st[-1] is not None)]
+    outer = blocks(n, [(st,) for st in inner], blank_bodies[:1])
+    if small:
+        outer = [st for st in outer if st[0] in ("if", "for", "case", "with", "unless")]
+    return tuple(outer)
+
+
 def liquid_wrap(stmts: list[tuple]) -> list[tuple]:
     return [("liquid", (s,)) for s in stmts if line_form_ok(s)]
 
